@@ -359,7 +359,19 @@ def build_node(n, env, is_async=False):
         if vr:
             if vr.get("touch"):
                 _touch_node(fnode, env)
-            fnode = fnode.with_inputs({o: c for o, c in zip(vr["orig"], n["inputs"]) if o != c})
+            mid = vr.get("mid")
+            done = False
+            if mid:
+                # two renames with a USE of the once-renamed node in between (orig -> mid, execute, mid -> current)
+                try:
+                    step1 = fnode.with_inputs({o: m for o, m in zip(vr["orig"], mid) if o != m})
+                    _touch_node(step1, env)
+                    fnode = step1.with_inputs({m: c for m, c in zip(mid, n["inputs"]) if m != c})
+                    done = True
+                except Exception:  # noqa: BLE001  (an intermediate naming the node rejects: fall back to the single rename)
+                    done = False
+            if not done:
+                fnode = fnode.with_inputs({o: c for o, c in zip(vr["orig"], n["inputs"]) if o != c})
         return fnode
     if kind == "ifelse":
         f = make_function(n, env, False)
